@@ -240,7 +240,9 @@ impl<'a> OverlappingFieldsCanBeMerged<'a> {
         self.collect_conflicts_within(schema, &mut conflicts, &field_map, visited_fragments);
 
         // (B) Then collect conflicts between these fields and those represented by
-        // each spread fragment name found.
+        // each spread fragment name found. The fragments already compared are remembered
+        // per collection of fields: another collection must be compared with them again.
+        let mut compared_fragments = Vec::new();
         for (i, frag_name1) in fragment_names.iter().enumerate() {
             self.collect_conflicts_between_fields_and_fragment(
                 schema,
@@ -248,7 +250,7 @@ impl<'a> OverlappingFieldsCanBeMerged<'a> {
                 &field_map,
                 frag_name1,
                 false,
-                visited_fragments,
+                &mut compared_fragments,
             );
 
             // (C) Then compare this fragment with all other fragments found in this
@@ -529,6 +531,7 @@ impl<'a> OverlappingFieldsCanBeMerged<'a> {
 
         // (I) Then collect conflicts between the first collection of fields and
         // those referenced by each fragment name associated with the second.
+        let mut compared_fragments1 = Vec::new();
         for fragment_name in &fragment_names2 {
             self.collect_conflicts_between_fields_and_fragment(
                 schema,
@@ -536,12 +539,13 @@ impl<'a> OverlappingFieldsCanBeMerged<'a> {
                 &field_map1,
                 fragment_name,
                 mutually_exclusive,
-                visited_fragments,
+                &mut compared_fragments1,
             );
         }
 
         // (I) Then collect conflicts between the second collection of fields and
         // those referenced by each fragment name associated with the first.
+        let mut compared_fragments2 = Vec::new();
         for fragment_name in &fragment_names1 {
             self.collect_conflicts_between_fields_and_fragment(
                 schema,
@@ -549,7 +553,7 @@ impl<'a> OverlappingFieldsCanBeMerged<'a> {
                 &field_map2,
                 fragment_name,
                 mutually_exclusive,
-                visited_fragments,
+                &mut compared_fragments2,
             );
         }
 
